@@ -7,13 +7,13 @@
    for the compiler only lexer and parser (XFront.v).  Independence from heap contents, environment and address-space
    layout of the REAL tools is correspondence only (tools/c11.py), not a theorem. *)
 From Coq Require Import ZArith List String Bool.
-From HexVerif Require AsmModel AsmLayout AsmFrontProofs XFront XFrontProofs.
+From HexVerif Require AsmModel AsmLayout AsmFrontProofs XFront XFrontProofs XFrontDetProofs.
 Import ListNotations.
 Local Open Scope Z_scope.
 
 Theorem C11_asm_function :
   forall s1 s2 : list Z, s1 = s2 -> AsmLayout.assemble s1 = AsmLayout.assemble s2.
-Proof. intros s1 s2 H. rewrite H. reflexivity. Qed.
+Proof. exact XFrontDetProofs.asm_function. Qed.
 Print Assumptions C11_asm_function.
 
 Theorem C11_asm_no_indeterminate :
@@ -22,14 +22,12 @@ Theorem C11_asm_no_indeterminate :
     | AsmModel.Ok _ | AsmModel.Reject _ => True
     | AsmModel.UB _ | AsmModel.OutOfFuel => False
     end.
-Proof.
-  intros src. destruct (AsmFrontProofs.assemble_total src) as [[o H]|[d H]]; rewrite H; exact I.
-Qed.
+Proof. exact XFrontDetProofs.asm_no_indeterminate. Qed.
 Print Assumptions C11_asm_no_indeterminate.
 
 Theorem C11_front_function_partial :
   forall s1 s2 : list Z, s1 = s2 -> XFront.front s1 = XFront.front s2.
-Proof. intros s1 s2 H. rewrite H. reflexivity. Qed.
+Proof. exact XFrontDetProofs.front_function. Qed.
 Print Assumptions C11_front_function_partial.
 
 Theorem C11_front_no_indeterminate_partial :
@@ -38,9 +36,7 @@ Theorem C11_front_no_indeterminate_partial :
     | XFront.Ok _ | XFront.Reject _ => True
     | XFront.UB _ | XFront.OutOfFuel => False
     end.
-Proof.
-  intros src. destruct (XFrontProofs.front_total src) as [[o H]|[d H]]; rewrite H; exact I.
-Qed.
+Proof. exact XFrontDetProofs.front_no_indeterminate. Qed.
 Print Assumptions C11_front_no_indeterminate_partial.
 
 (* the full statement for the compiler, for a model of the whole of Driver::run (not written yet) *)
